@@ -135,6 +135,7 @@ package batch
 //@   requires beInv(be)
 //@   results err
 //@   ensures wf: err == nil ==> beInv(be)
+//@   ensures cancelled_on_entry: ctx.Err#0() != nil ==> (err == ctx.Err#0() && *be == old(*be))
 //@   ensures restored: err == nil ==> (be.Variables == old(be.Variables) && be.Values == old(be.Values) && be.env == old(be.env) && be.policies == old(be.policies) && be.callback == old(be.callback))
 //@   assert before "err := doBatch(ctx, be)" substituted: be.env.Principal == cloneSub#0(loopEnv.Principal, u.Key, v) && be.env.Action == cloneSub#0(loopEnv.Action, u.Key, v) && be.env.Resource == cloneSub#0(loopEnv.Resource, u.Key, v) && be.env.Context == cloneSub#0(loopEnv.Context, u.Key, v) && be.env.Entities == loopEnv.Entities
 //@   assert before "err := doBatch(ctx, be)" values: has(be.Values, u.Key) && be.Values[u.Key] == v && (forall k types.String :: k != u.Key ==> (has(be.Values, k) == has(prevState.Values, k) && be.Values[k] == prevState.Values[k]))
